@@ -26,10 +26,11 @@ type c02Stream struct {
 	Sizes []int
 	ParkR int // index of the Recv that parks after its done-check (-1: none)
 	ParkS int // index of the Send that parks after its done-check (-1: none)
+	ParkL bool // the stream's loop parks at cs.loop.read before its first Read
 }
 
 func (s c02Stream) String() string {
-	return fmt.Sprintf("%s n=%d %s / %s parkR=%d parkS=%d", syKinds[s.Kind], s.N, syCProgs[s.CProg], s.H, s.ParkR, s.ParkS)
+	return fmt.Sprintf("%s n=%d %s / %s parkR=%d parkS=%d parkL=%v", syKinds[s.Kind], s.N, syCProgs[s.CProg], s.H, s.ParkR, s.ParkS, s.ParkL)
 }
 
 // threads of one stream (slot = stream index)
@@ -40,7 +41,7 @@ func (s c02Stream) threads(slot int, rng *rand.Rand) [][]syCop {
 	}
 	recvAll := syCop{Op: "recv*", Slot: slot}
 	var a []syCop
-	a = append(a, syCop{Op: "open", Slot: slot, Kind: s.Kind, M: slot + s.N})
+	a = append(a, syCop{Op: "open", Slot: slot, Kind: s.Kind, M: slot + s.N, Park: s.ParkL})
 	nrecv := 0
 	recv1 := func() syCop {
 		c := syCop{Op: "recv", Slot: slot, Park: nrecv == s.ParkR}
@@ -124,6 +125,8 @@ func genC02Stream(rng *rand.Rand, maxN int) c02Stream {
 		if s.N > 0 {
 			s.ParkS = rng.Intn(s.N)
 		}
+	case 2:
+		s.ParkL = rng.Intn(2) == 0
 	}
 	return s
 }
@@ -148,6 +151,9 @@ func recC02(kind string, cfg c02Cfg, streams []c02Stream, steps []syStep, comple
 		}
 		if s.ParkS >= 0 {
 			tags = append(tags, "yield:send")
+		}
+		if s.ParkL {
+			tags = append(tags, "yield:loop")
 		}
 	}
 	nev := 0
@@ -458,6 +464,29 @@ func TestC02(t *testing.T) {
 					sp.small(&rec)
 				}
 			}
+		}
+	}
+
+	// ---- A4. the stream's loop is parked at cs.loop.read before its first Read; the handler sends n messages and returns
+	// nil, everything is delivered to the client's transport and the caller's receives are issued; then the loop is
+	// released: the caller must get the n messages and io.EOF
+	for kind := 1; kind < 3; kind++ {
+		for _, n := range []int{0, 1, 2, 3} {
+			s := c02Stream{Kind: kind, N: 0, CProg: 2, ParkR: -1, ParkS: -1, ParkL: true, H: syHProg{J: 0, N: n, Seed: int64(kind*10 + n)}}
+			if kind == 2 {
+				s.N, s.H = n, syHProg{J: -1, Echo: true, Seed: int64(kind*10 + n)}
+			}
+			cfg := c02Cfg{0, (kind+n)%2 == 1}
+			steps, complete := runC02Lock(t, cfg, []c02Stream{s}, int64(7000+kind*100+n), func(step int, en []syAct) int {
+				for i, a := range en {
+					if a.K != 'R' {
+						return i
+					}
+				}
+				return 0
+			})
+			rec := recC02("c02-loop-parked", cfg, []c02Stream{s}, steps, complete, "mode:directed-yield")
+			sp.small(&rec)
 		}
 	}
 
